@@ -347,6 +347,16 @@ func c20Returns(drv *core.Driver, body []jr.Dir, cfg c20Cfg) (string, string, *c
 			held[c] = true
 		}
 		days := append([]time.Time{prevEnd}, l.JournalDays(p.E)...)
+		// ... and of commodities bought and sold again inside the period
+		for _, d := range days {
+			if d.Before(prevEnd) || d.After(p.E) {
+				continue
+			}
+			vd, _ := portfolioValues(l, cfg, d)
+			for c := range vd {
+				held[c] = true
+			}
+		}
 		for c := range held {
 			var base *big.Rat
 			for _, d := range days {
@@ -455,57 +465,66 @@ func c20Run(e *core.Env) {
 	if e.Thorough() {
 		plans = []plan{{c20Alphabet(d3), 3, c20Cfgs(true)}}
 	}
+	evalSeq := func(seq []jr.Dir, cfgs []c20Cfg) {
+		for _, cfg := range cfgs {
+			for _, cmd := range []string{"weights", "returns"} {
+				if cmd == "returns" && (cfg.Universe || cfg.Map != "") {
+					continue
+				}
+				if !e.Take() {
+					continue
+				}
+				var key, detail string
+				var out *core.Outcome
+				if cmd == "weights" {
+					key, detail, out = c20Weights(drv, seq, cfg)
+				} else {
+					key, detail, out = c20Returns(drv, seq, cfg)
+				}
+				e.Count("evaluations")
+				switch detail {
+				case "failed":
+					e.Count("runs_failing_on_missing_price")
+				case "ambiguous", "zero-total":
+					e.Count("runs_skipped_" + detail)
+				default:
+					e.Count("distinct_nontrivial")
+				}
+				e.Distinct(out.Stdout)
+				if e.CaseNo()%30011 == 0 {
+					e.Sample(map[string]any{"journal": jr.ShortAll(seq), "cmd": cmd, "cfg": cfg})
+				}
+				if key != "" {
+					cs := c20Case{cloneDirs(seq), cfg, cmd}
+					e.Violation(key, detail, cs, func() bool {
+						var k string
+						if cs.Cmd == "weights" {
+							k, _, _ = c20Weights(drv, cs.Body, cs.Cfg)
+						} else {
+							k, _, _ = c20Returns(drv, cs.Body, cs.Cfg)
+						}
+						return k == key
+					})
+				}
+			}
+		}
+	}
 	for _, pl := range plans {
 		e.Note("journal alphabet %d symbols, depth <= %d, %d configurations x {weights, returns}", len(pl.alpha), pl.n, len(pl.cfgs))
 		forEachSeq(e, pl.alpha, pl.n, func(seq []jr.Dir) {
 			if ref.NewLedger(seq).SameDayPriceConflict() {
 				return
 			}
-			for _, cfg := range pl.cfgs {
-				for _, cmd := range []string{"weights", "returns"} {
-					if cmd == "returns" && (cfg.Universe || cfg.Map != "") {
-						continue
-					}
-					if !e.Take() {
-						continue
-					}
-					var key, detail string
-					var out *core.Outcome
-					if cmd == "weights" {
-						key, detail, out = c20Weights(drv, seq, cfg)
-					} else {
-						key, detail, out = c20Returns(drv, seq, cfg)
-					}
-					e.Count("evaluations")
-					switch detail {
-					case "failed":
-						e.Count("runs_failing_on_missing_price")
-					case "ambiguous", "zero-total":
-						e.Count("runs_skipped_" + detail)
-					default:
-						e.Count("distinct_nontrivial")
-					}
-					e.Distinct(out.Stdout)
-					if e.CaseNo()%30011 == 0 {
-						e.Sample(map[string]any{"journal": jr.ShortAll(seq), "cmd": cmd, "cfg": cfg})
-					}
-					if key != "" {
-						cs := c20Case{cloneDirs(seq), cfg, cmd}
-						e.Violation(key, detail, cs, func() bool {
-							var k string
-							if cs.Cmd == "weights" {
-								k, _, _ = c20Weights(drv, cs.Body, cs.Cfg)
-							} else {
-								k, _, _ = c20Returns(drv, cs.Body, cs.Cfg)
-							}
-							return k == key
-						})
-					}
-				}
-			}
+			evalSeq(seq, pl.cfgs)
 		})
 		e.SetBound(fmt.Sprintf("journal_depth_alphabet%d", len(pl.alpha)), pl.n)
 	}
+	// position life histories (see positionChains): portfolios that become empty and are funded again
+	chainN := core.Pick(e, 4, 5)
+	chainCfgs := []c20Cfg{{V: "CHF", Interval: ref.Daily}, {V: "USD", Interval: ref.Daily}, {V: "CHF", Interval: ref.Weekly}, {V: "CHF", Interval: ref.Daily, ComRx: "AAPL"}, {V: "USD", Interval: ref.Daily, AccRx: "Portfolio"}, {V: "CHF", Interval: ref.Daily, Last: 2}}
+	e.Note("position chains: 7 step kinds, <= %d steps on consecutive days, %d configurations x {weights, returns}", chainN, len(chainCfgs))
+	positionChains(e, chainN, func(seq []jr.Dir) { evalSeq(seq, chainCfgs) })
+	e.SetBound("position_chain_steps", chainN)
 }
 
 func c20Replay(e *core.Env, data json.RawMessage) (bool, string) {
